@@ -175,12 +175,23 @@ fn table_layout(rep: &mut Report, r: &mut Rng) {
     }
     // there are exactly 512 slots: an index beyond them is refused in every build profile (it would name memory outside
     // the 4 KiB block)
-    for bad in [512usize, 513, 1023, 4096, usize::MAX] {
+    for bad in [512usize, 513, 1023, 4096, 65535, 65536, 65536 + 7, 65536 + 511, 1 << 32, (1 << 32) + 7, (1 << 48) + 511, usize::MAX - 511, usize::MAX] {
         rep.eval();
         let r1 = crate::util::catch(|| &t[bad] as *const PageTableEntry as usize);
         let r2 = crate::util::catch(|| &mut t[bad] as *mut PageTableEntry as usize);
         if r1.is_ok() || r2.is_ok() {
             rep.violation("PageTable|index-outside-0..512-not-refused", J::obj(vec![("profile", J::s(crate::util::profile_name())), ("index", J::hex(bad as u64)), ("table", J::hex(base as u64)), ("handed_out", J::s(format!("{:x?} / {:x?}", r1.ok(), r2.ok())))]));
+        }
+    }
+    // iter() names the same 512 slots wherever the table lives - also in the last page of the address space, where a
+    // recursive level-4 table with index 511 sits (the references are only compared, never dereferenced)
+    #[cfg(not(miri))]
+    for top in [0xffff_ffff_ffff_f000usize, 0xffff_ff7f_bfdf_e000, 0x0000_7fff_ffff_f000] {
+        rep.eval();
+        let tt: &PageTable = unsafe { &*(top as *const PageTable) };
+        let got: Vec<usize> = tt.iter().take(600).map(|e| e as *const PageTableEntry as usize).collect();
+        if got.len() != 512 || got.iter().enumerate().any(|(i, &a)| a != top + 8 * i) {
+            rep.violation("PageTable::iter|does-not-name-the-512-slots-of-a-table-at-the-top-of-the-address-space", J::obj(vec![("table", J::hex(top as u64)), ("items", J::U(got.len() as u64))]));
         }
     }
     rep.exhaustive.push("all 512 slots x {Index<usize>, Index<PageTableIndex>, iter, iter_mut, IndexMut x2}: pointer identity with base+8*i".into());
